@@ -205,7 +205,7 @@ def run(ctx):
             if D == 2:
                 jobs.append((ctx.repo, "unpool", D, sig, 3))
     by = {}
-    for job, r in zip(jobs, ctx.pmap(worker, jobs)):
+    for job, r in ctx.pairs(worker, jobs):
         cfg = r["cfg"]
         nontriv = any(t[0] >= 1 or t[1] == 1 for t, _ in cfg["signature"])
         ev.obligation("block", not r["problems"], tuple(str(v) for v in cfg.values()) if nontriv else None, sample={k: v for k, v in cfg.items()} if ev.obligations % 9 == 0 else None)
